@@ -41,8 +41,13 @@ func (m *Mutex) Unlock() {
 		return
 	}
 	simrt.Point(simrt.KUnlock)
+	if m.m.TryLock() {
+		m.m.Unlock()
+		panic("sync: unlock of unlocked mutex")
+	}
 	m.m.Unlock()
 	simrt.WakeAll(unsafe.Pointer(m))
+	simrt.RunUnlockHooks()
 }
 
 // RWMutex is modelled as an exclusive lock plus reader count.
